@@ -320,6 +320,24 @@ func genHs(g *genCtx) {
 			}
 		}
 	}
+	// BMC keys of other lengths than 20 bytes, against a BMC holding the same key, another key, or none: the ICV must be
+	// the keyed hash under the CALLER's key, whatever its length
+	for _, n := range []int{1, 7, 19, 21, 37} {
+		for variant := 0; variant < 3; variant++ {
+			o := base()
+			o.auth, o.integ = []byte{1, 2, 3}[n%3], []byte{1, 2, 4}[n%3]
+			o.kg = rb(n)
+			switch variant {
+			case 0:
+				o.bmcKG = o.kg
+			case 1:
+				o.bmcKG = nil // the BMC keys the SIK with the password
+			case 2:
+				o.bmcKG = rb(n)
+			}
+			emit('P', true, o, append(live(o, echo), "L"))
+		}
+	}
 	// user names longer than 16 bytes: refused before anything is sent beyond the Open Session exchange
 	for n := 17; n <= 20; n++ {
 		o := base()
